@@ -71,10 +71,19 @@ def _patch_library():
     coc.Context = NoCoap
 
 
-ADDR = {"v4": "10.0.{k}.5", "v6": "2001:db8::{k}:5", "ll4": "169.254.{k}.5", "ll6": "fe80::{k}:5", "un4": "0.0.0.0", "un6": "::"}
+# concrete texts of the abstract address classes.  "v4" / "v6" have ten spelling varieties (field `av` of the
+# class): IPv4 texts whose first digit is 1..9, IPv6 global / ULA texts starting with 2 or f; k = position in the list
+V4 = ["10.0.{k}.5", "192.168.{k}.2", "203.0.113.{k}", "8.8.4.{k}", "99.1.2.{k}", "34.5.{k}.7", "45.6.{k}.8", "56.7.{k}.9",
+      "67.8.{k}.1", "78.9.{k}.2"]
+V6 = ["2001:db8::{k}:5", "2a00:1450:4001::{k}", "fd12:3456:789a::{k}:1", "fc00::{k}:2", "2600:1f18::{k}"]
+ADDR = {"ll4": "169.254.{k}.5", "ll6": "fe80::{k}:5", "un4": "0.0.0.0", "un6": "::"}
 
 
-def addr_of(cls, k):
+def addr_of(cls, k, av=0):
+    if cls == "v4":
+        return V4[av % len(V4)].format(k=k)
+    if cls == "v6":
+        return V6[av % len(V6)].format(k=k)
     return ADDR[cls].format(k=k)
 
 
@@ -110,6 +119,8 @@ class World:
         self.loop = new_loop()
         self.loop.set_exception_handler(lambda loop, ctx: None)
         self.events = []
+        self.seen_desc = {}        # (transport, id label) -> descriptions the transport produced for the id (each one
+                                   # was compared with the specification when its advertisement was logged)
         self.script = []           # replayable list of driver calls
         self._rec = True
         self._nest = 0
@@ -237,21 +248,25 @@ class World:
             asyncio.events._set_running_loop(None)
 
     # ------------------------------------------------------------------ callers
-    def _call(self, key, ctl, dev_id, want_id, tmo_ms, ev_ret, **ids):
+    def _call(self, key, ctl, dev_id, want_id, tmo_ms, ev_ret, trs=(), idl=None, **ids):
         from aiohomekit.exceptions import AccessoryNotFoundError
 
         async def go():
             try:
                 d = await ctl.async_find(dev_id, tmo_ms / 1000.0)
-                ok = getattr(getattr(d, "description", None), "id", None) == want_id
-                self.log(ev_ret, res="found" if ok else "found_wrong", **ids)
+                desc = getattr(d, "description", None)
+                ok = getattr(desc, "id", None) == want_id
+                # end to end: the discovery handed to the caller carries a description this transport produced
+                # from an advertisement for the id (address, numbers ... were checked when it was logged)
+                seen = any(desc is x for tr in trs for x in self.seen_desc.get((tr, idl), ()))
+                self.log(ev_ret, res="found" if ok else "found_wrong", desc="seen" if seen else "other", **ids)
             except AccessoryNotFoundError:
-                self.log(ev_ret, res="notfound", **ids)
+                self.log(ev_ret, res="notfound", desc="-", **ids)
             except asyncio.CancelledError:
-                self.log(ev_ret, res="cancelled", **ids)
+                self.log(ev_ret, res="cancelled", desc="-", **ids)
                 raise
             except Exception as ex:  # noqa: BLE001
-                self.log(ev_ret, res="error:" + type(ex).__name__, **ids)
+                self.log(ev_ret, res="error:" + type(ex).__name__, desc="-", **ids)
         self.tasks[key] = self.loop.create_task(go())
         self.deadline[key] = self.now_ms() + tmo_ms
 
@@ -259,13 +274,13 @@ class World:
         self._note("start", w, tr, idl, tmo_ms, upper)
         self.log("start", w=w, tr=tr, id=idl, tmo=tmo_ms)
         dev = IDS[idl].upper() if upper and tr != "ble" else IDS[idl]
-        self._call(w, self.ctl[tr], dev, IDS[idl], tmo_ms, "ret", w=w)
+        self._call(w, self.ctl[tr], dev, IDS[idl], tmo_ms, "ret", trs=(tr,), idl=idl, w=w)
         self.settle()
 
     def astart(self, g, idl, tmo_ms):
         self._note("astart", g, idl, tmo_ms)
         self.log("astart", g=g, id=idl, tmo=tmo_ms)
-        self._call(g, self.agg, IDS[idl], IDS[idl], tmo_ms, "aret", g=g)
+        self._call(g, self.agg, IDS[idl], IDS[idl], tmo_ms, "aret", trs=("ip", "coap", "ble"), idl=idl, g=g)
         self.settle()
 
     def cancel(self, key, settle=True):
@@ -315,6 +330,7 @@ class World:
         else:
             k = changed[0]
             d = after[k]
+            self.seen_desc.setdefault((tr, idl), []).append(d)
             ok = len(changed) == 1 and k == want and getattr(d, "id", None) == want
             obs = {"k": "disc", "id": "lower" if ok else "other"}
             if cls["kind"] == "mdns":
@@ -355,7 +371,7 @@ class World:
             props[(key.upper() if up else key).encode()] = val.encode("utf-8", "surrogateescape") if isinstance(val, str) else val
         packed = []
         for k, a in enumerate(cls["addrs"], 1):
-            ip = ipaddress.ip_address(addr_of(a, k))
+            ip = ipaddress.ip_address(addr_of(a, k, cls.get("av", 0)))
             packed.append(ip.packed)
         return AZ.AsyncServiceInfo(typ, name, addresses=packed, port=5001, properties=props, weight=0, priority=0)
 
